@@ -7,7 +7,7 @@ import PdtVerif.Lemmas.ControllerText
 Property theorems only (helper lemmas: `Lemmas/Controller.lean`; model of the code:
 `Model/Controller.lean`; the stated rules: `Spec/TrainingRules.lean`).
 
-Every statement is for **every** parameter setting allowed by `TrainingStateParams`
+Every statement about the code is for **every** parameter setting allowed by `TrainingStateParams`
 (`Params.WF`: patiences ≥ 1, thresholds ≥ 0), every float rounding function `rnd`, every list of
 initial optimizer rates and every sequence of `(train_met, val_met)` pairs, of any length.
 
@@ -109,7 +109,10 @@ theorem C15_lr (P : Params) (hP : P.WF) (g : List Rat) (ms : List (Rat × Rat)) 
   exact ⟨S, outs, hr, h1, h2, hU.groups⟩
 
 /-- what `lrAction` means, spelled out: the optimizer is written iff the criterion fired and the
-change is not negligible; firing needs: not waiting, a failure, and the patience-th in a row. -/
+change is not negligible; firing needs: not waiting, a failure, and the patience-th in a row.
+(Audit: this is the definition of the rules' `specStep` unfolded — a reading aid about the SPEC, it
+says nothing about the code and is not counted as an obligation.  The statement about the code is
+`C15_lr_epoch` below.) -/
 theorem C15_lr_iff (P : Params) (T : SpecState) (v : Rat) :
     let o := (specStep P T v).2
     ((lrAction o).isSome ↔ (o.fire = true ∧ P.rlrEps < P.rnd (T.lr - P.rnd (T.lr * P.rlrFactor)))) ∧
@@ -324,6 +327,86 @@ example : (specRun exP (specInit exP [1]) (vals exMs)).1.es.refEpoch = 2 ∧
     (specRun exP (specInit exP [1]) (vals exMs)).1.es.fails = 3 ∧
     (specRun exP (specInit exP [1]) (vals exMs)).1.rlr.refEpoch = 5 := by decide +kernel
 
+/-! ## the decisions of one epoch, stated on the code's own records and the raw metric sequence
+
+(audit round) `C15_lr` / `C15_stop` equate two lists; what the entries of the rules' list *mean* was
+only available as the unfolded definition of the rules (`C15_lr_iff`).  The two theorems below say
+it about the **code**, epoch by epoch, with the rules' state pinned to the raw sequence by
+`Window` (`C15_spec_window`). -/
+
+/-- **C15_lr_epoch** — no side condition.  After any metric sequence `ms`, at the next epoch (metrics
+`m`) the code writes a new rate into the optimizer **iff** all of: the criterion is not in
+burn-in/cool-down (the stored `rlr_resume_cd` of the previous row `L` is 0), the validation metric
+fails to undercut, by the threshold, the reference value, this is the `patience`-th such epoch in
+a row, and the change `old - rnd(old·factor)` exceeds epsilon; the value written is
+`rnd(old·factor)` where `old` is the rate recorded in the previous row (the optimizer's default
+at epoch 1 when `log10_learning_rate` is unset); otherwise nothing is written and the recorded
+rate stays `old`.  `Window`: the reference value is the validation metric of epoch `refEpoch`
+(`+∞` for 0), exactly the `fails` epochs after it are recorded and each of them failed to undercut
+it by the threshold. -/
+theorem C15_lr_epoch (P : Params) (hP : P.WF) (g : List Rat) (ms : List (Rat × Rat)) (m : Rat × Rat) :
+    ∃ S outs o L, run P (init P g) (ms ++ [m]) = .ok (S, outs ++ [o]) ∧ outs.length = ms.length ∧
+      S.hist[ms.length]? = some L ∧
+      let T := (specRun P (specInit P g) (vals ms)).1
+      let new := P.rnd (T.lr * P.rlrFactor)
+      let crit := T.rlr.wait = 0 ∧ undercutFails P P.rlrThr T.rlr.ref m.2 = true ∧
+        P.rlrPat ≤ T.rlr.fails + 1 ∧ P.rlrEps < P.rnd (T.lr - new)
+      L.lr.getD P.optDefault = T.lr ∧ L.rlrResume = (T.rlr.wait : Int) ∧
+      Window P P.rlrThr (vals ms) T.rlr ∧
+      (o.setLr = some new ↔ crit) ∧ (o.setLr = none ↔ ¬ crit) ∧
+      o.row.lr = some (if crit then new else T.lr) := by
+  obtain ⟨S1, outs, hr, hU, _, _, h3, _, _⟩ := run_simU hP ms _ _ (init_invU P hP g)
+  obtain ⟨S2, o, hs, hSU⟩ := step_invU hP hU m.1 m.2
+  have hrun : run P (init P g) (ms ++ [m]) = .ok (S2, outs ++ [o]) :=
+    run_append_ok ms _ S1 S2 outs [o] [m] hr (run_cons_ok hs rfl)
+  have hlen : outs.length = ms.length := by simpa using congrArg List.length h3
+  have hep : (specRun P (specInit P g) (vals ms)).1.epoch = ms.length := by
+    rw [specRun_epoch]; simp [specInit]
+  obtain ⟨hl, _, L, hL, hrlr, _, hlr, _⟩ := hU
+  rw [hep] at hL hl
+  have hL2 : S2.hist[ms.length]? = some L := by
+    rw [hSU.hist, List.getElem?_append_left (by omega)]; exact hL
+  refine ⟨S2, outs, o, L, hrun, hlen, hL2, ?_⟩
+  have hset := hSU.setLr
+  have hrow := hSU.rowLr
+  simp only [specStep] at hset hrow
+  refine ⟨hlr, hrlr.wait, (C15_spec_window P g (vals ms)).2, ?_, ?_, ?_⟩
+  · rw [hset]; split <;> simp_all [and_assoc]
+  · rw [hset]; split <;> simp_all [and_assoc]
+  · rw [hrow]; split <;> simp_all [and_assoc]
+
+/-- **C15_stop_epoch** — `C15_stop` for one epoch, on the raw sequence: for a call sequence on which
+early stopping has not fired before (`liveRun`; discharged for the documented loops by `C15_loop`,
+from the code's own return values by `C15_live_of_obeyed`), the value returned at the last epoch is
+`False` **iff** the epoch budget is reached or early stopping is enabled and at least `patience`
+consecutive epochs — all the epochs after the reference epoch, none of them in burn-in — failed
+to undercut, by the threshold, the validation metric of the reference epoch (`Window`). -/
+theorem C15_stop_epoch (P : Params) (hP : P.WF) (g : List Rat) (ms : List (Rat × Rat)) (m : Rat × Rat)
+    (hlive : liveRun P (specInit P g) (vals (ms ++ [m]))) :
+    ∃ S outs o, run P (init P g) (ms ++ [m]) = .ok (S, outs ++ [o]) ∧ outs.length = ms.length ∧
+      let T' := (specRun P (specInit P g) (vals (ms ++ [m]))).1
+      Window P P.esThr (vals (ms ++ [m])) T'.es ∧
+      (o.cont = false ↔ (budgetReached P (ms.length + 1) = true ∨
+        (P.esThr ≠ 0 ∧ P.esPat ≤ T'.es.fails))) := by
+  have hv : vals (ms ++ [m]) = vals ms ++ [m.2] := by simp [vals]
+  rw [hv] at hlive
+  obtain ⟨hl1, hl2⟩ := (liveRun_snoc P (vals ms) (specInit P g) m.2).1 hlive
+  obtain ⟨S1, outs, hr, hU, _, _, h3, _, _⟩ := run_simU hP ms _ _ (init_invU P hP g)
+  obtain ⟨hE, _⟩ := run_simEs hP ms _ _ (init_invU P hP g) (init_invEs P g) hl1 S1 outs hr
+  obtain ⟨S2, o, hs, _⟩ := step_invU hP hU m.1 m.2
+  obtain ⟨_, hc⟩ := step_invEs hP hU hE hl2 m.1 m.2 hs
+  have hrun : run P (init P g) (ms ++ [m]) = .ok (S2, outs ++ [o]) :=
+    run_append_ok ms _ S1 S2 outs [o] [m] hr (run_cons_ok hs rfl)
+  have hlen : outs.length = ms.length := by simpa using congrArg List.length h3
+  have hep : (specRun P (specInit P g) (vals ms)).1.epoch = ms.length := by
+    rw [specRun_epoch]; simp [specInit]
+  refine ⟨S2, outs, o, hrun, hlen, ?_⟩
+  simp only
+  refine ⟨(C15_spec_window P g (vals (ms ++ [m]))).1, ?_⟩
+  rw [hv, specRun_snoc, hc]
+  simp only [specStep, SpecOut.stop, hep]
+  cases hb : budgetReached P (ms.length + 1) <;> simp
+
 /-! ## the text of the history file -/
 
 /-- **C15_int_roundtrip**: an epoch number / countdown / integer user entry printed with
@@ -347,7 +430,8 @@ theorem C15_float_text (P : Params) (hsig : 1 ≤ P.sig) (x : Rat) :
   rw [decValue_fmtFloat P.sig hsig x]
   rfl
 
-/-- on the printed grid (`rt x = x`) write-then-read of the text is the identity -/
+/-- on the printed grid (`rt x = x`) write-then-read of the text is the identity
+(audit: a one-line corollary of `C15_float_text`, kept for reading, not counted as an obligation) -/
 theorem C15_float_text_grid (P : Params) (hsig : 1 ≤ P.sig) (x : Rat) (hx : rt P x = x) :
     parseFloat P (fmtFloat P.sig x) = some x := by
   rw [C15_float_text P hsig x, hx]
@@ -398,7 +482,9 @@ For one entry declared `add_entry(name, typ, fmt)` and a value `v` handed to `up
 `rtEntry = typ(fmt.format(v))` is what any later `get_info` returns once the row has been re-read
 from the file (`C15_file_reread`, `C15_restart_text`); then
 
-* whatever comes back has the declared type (for every format, faithful or not);
+* whatever comes back has the declared type (for every format, faithful or not) — audit: in the
+  model this holds by construction (`parseEntry typ` builds a value of that type, as `typ(text)`
+  does in Python for `int`/`float`/`str`); the content is in the three round-trip clauses;
 * an `int` entry with `"{}"`, `"{:d}"`, `"{:0wd}"` or `"{!r}"` comes back as the same integer
   (every integer, every width);
 * a `str` entry with `"{}"` or `"{:s}"` comes back as the same string (every string: the csv layer
@@ -566,5 +652,150 @@ theorem C15_lr_double_rounding_counterexample :
 example : ((specRunR crP (specInit crP [1]) (List.replicate 9 1)
       [false, false, false, false, false, false, true, false, false]).2.map (·.lr))[7]?
     = some (82355 / 1000000) := by decide +kernel
+
+/-! ## audit round: every hypothesis set instantiated together on a non-trivial instance -/
+
+theorem C15_exP_wf : exP.WF := ⟨by decide, by decide, by decide +kernel, by decide +kernel⟩
+
+theorem C15_crP_wf : crP.WF := ⟨by decide, by decide, by decide +kernel, by decide +kernel⟩
+
+/-- 4 epochs of `exMs` (burn-in, improvement, two failures: early stopping fires at the 4th, the rate
+was halved at the 3rd) satisfy `liveRun` -/
+theorem C15_ex_live : liveRun exP (specInit exP [1]) (vals (exMs.take 4)) := by
+  simp only [exMs, vals, List.take, List.map, liveRun]; decide +kernel
+
+/-- `C15_ref_epoch` and `C15_stop` applied to that instance -/
+example := C15_ref_epoch exP C15_exP_wf [1] (exMs.take 4) C15_ex_live
+example := C15_stop exP C15_exP_wf [1] (exMs.take 4) C15_ex_live
+
+/-- `C15_stop_epoch` at the epoch where early stopping fires (epoch 4: `fails = 2 = patience`) and
+`C15_lr_epoch` at an epoch where the rate is written (epoch 3) -/
+example := C15_stop_epoch exP C15_exP_wf [1] (exMs.take 3) (2, 1)
+  (by simp only [exMs, vals, List.take, List.map, liveRun, List.cons_append,
+        List.nil_append]; decide +kernel)
+
+example : (specRun exP (specInit exP [1]) (vals (exMs.take 3 ++ [(2, 1)]))).1.es.fails = 2 ∧
+    budgetReached exP 4 = false ∧
+    (specRun exP (specInit exP [1]) (vals (exMs.take 2))).1.rlr.wait = 0 ∧
+    undercutFails exP exP.rlrThr (specRun exP (specInit exP [1]) (vals (exMs.take 2))).1.rlr.ref 1 = true
+    := by decide +kernel
+
+example := C15_lr_epoch exP C15_exP_wf [1] (exMs.take 2) (2, 1)
+
+/-- `C15_live_of_obeyed`: its two hypotheses (the run, and "no call after a returned `False`") hold
+together on the 4-epoch instance, whose last returned value IS `False` -/
+theorem C15_live_of_obeyed_nonvacuous : liveRun exP (specInit exP [1]) (vals (exMs.take 4)) := by
+  obtain ⟨S, outs, hr, _, _⟩ := C15_no_keyerror exP C15_exP_wf [1] (exMs.take 4)
+  have hb : (match run exP (init exP [1]) (exMs.take 4) with
+    | .ok (_, outs) => outs.dropLast.all (·.cont) && !(outs.all (·.cont))
+    | .error _ => false) = true := by decide +kernel
+  rw [hr] at hb
+  simp only [Bool.and_eq_true, List.all_eq_true] at hb
+  exact C15_live_of_obeyed exP C15_exP_wf [1] _ S outs hr hb.1
+
+/-- `C15_continue` on the first update of the example -/
+example : ∃ S' o, step exP (init exP [1]) 2 2 = .ok (S', o) ∧ continueTraining exP S' = .ok o.cont := by
+  obtain ⟨S, outs, hr, _, _⟩ := C15_no_keyerror exP C15_exP_wf [1] [(2, 2)]
+  obtain ⟨S', o, _, hs, _, _⟩ := run_cons_inv hr
+  exact ⟨S', o, hs, C15_continue exP _ S' 2 2 o hs⟩
+
+/-- an unsynchronised optimizer (`log10_learning_rate` set, no load at epoch 0, two groups with own
+rates): the groups keep their rates until the first reduction, then carry the recorded rate -/
+example : (match run { exP with initLr := some (1/8) } (initRaw { exP with initLr := some (1/8) } [1, 2])
+      (exMs.take 2) with
+    | .ok (S, _) => some S.groups | .error _ => none) = some [1, 2] ∧
+    (match run { exP with initLr := some (1/8) } (initRaw { exP with initLr := some (1/8) } [1, 2]) exMs with
+    | .ok (S, outs) => some (outs.map (·.setLr), S.groups)
+    | .error _ => none) = some ([none, none, some (1/16), none, some (1/32)], [1/32, 1/32]) := by
+  decide +kernel
+
+/-! ### restarts -/
+
+theorem C15_crMs_grid : ∀ m ∈ crMs, rt crP m.1 = m.1 ∧ rt crP m.2 = m.2 := by
+  intro m hm
+  have : m = (1, 1) := by
+    simp only [crMs] at hm
+    exact List.eq_of_mem_replicate hm
+  subst this
+  decide +kernel
+
+/-- `C15_restart_decisions` on the double-rounding witness (restart after epoch 7; the `lr` column
+and the optimizer groups of the two runs DIFFER there, see the counterexample): all hypotheses hold,
+decisions, countdowns and metric columns are those of the uninterrupted run -/
+theorem C15_restart_decisions_nonvacuous :
+    ∃ S outs S' outs', run crP (init crP [1]) crMs = .ok (S, outs) ∧
+      runR crP (init crP [1]) crMs crFl = .ok (S', outs') ∧
+      outs'.map (·.cont) = outs.map (·.cont) ∧
+      S'.hist.map eraseLr = S.hist.map eraseLr ∧ S'.groups ≠ S.groups := by
+  obtain ⟨S, outs, hr, _, _⟩ := C15_no_keyerror crP C15_crP_wf [1] crMs
+  obtain ⟨S', outs', hr', hc, _, hh⟩ := C15_restart_decisions crP [1] crMs crFl C15_crMs_grid S outs hr
+  refine ⟨S, outs, S', outs', hr, hr', hc, hh, ?_⟩
+  have := C15_lr_double_rounding_counterexample.2.2.2.2.2.2.2.2
+  rw [hr, hr'] at this
+  exact this
+
+/-- `C15_restart_lr_exact` on the same witness -/
+example := C15_restart_lr_exact crP C15_crP_wf [1] crMs crFl (fun m hm => (C15_crMs_grid m hm).2)
+
+/-- `C15_restart_partial` on `exMs` (rates 1, 1/2, 1/4: on the grid), restarts after epochs 1, 3, 4 -/
+theorem C15_restart_partial_nonvacuous :
+    ∃ S outs, run exP (init exP [1]) exMs = .ok (S, outs) ∧
+      runR exP (init exP [1]) exMs [true, false, true, true, false] = .ok (S, outs) := by
+  obtain ⟨S, outs, hr, _, _⟩ := C15_no_keyerror exP C15_exP_wf [1] exMs
+  have hb : (match run exP (init exP [1]) exMs with
+    | .ok (_, outs) => outs.all (fun o => decide (rtRow exP o.row = o.row))
+    | .error _ => false) = true := by decide +kernel
+  rw [hr] at hb
+  simp only [List.all_eq_true, decide_eq_true_eq] at hb
+  exact ⟨S, outs, hr, C15_restart_partial exP [1] exMs _ S outs hr hb⟩
+
+/-! ### text of the file -/
+
+/-- `C15_float_text_grid`: `1/2` is on the printed grid -/
+example : parseFloat exP (fmtFloat exP.sig (1/2)) = some (1/2) :=
+  C15_float_text_grid exP (by decide) (1/2) (by decide +kernel)
+
+/-- … and `C15_float_text` off the grid: `0.117649` is printed `1.1765e-01` and read back as `0.11765` -/
+example : parseFloat exP (fmtFloat exP.sig (117649 / 1000000)) = some (11765 / 100000) := by
+  rw [C15_float_text exP (by decide)]; decide +kernel
+
+theorem C15_exFileWF : FileWF exP exDecls exRowsE := by
+  refine ⟨by decide, by decide, by decide, ?_⟩
+  intro r hr
+  simp only [exRowsE, List.mem_singleton] at hr
+  subst hr
+  exact ⟨_, _, _, rfl, rfl, rfl⟩
+
+/-- `C15_file_reread`: all hypotheses hold on the example file (two user entries, a string with
+comma, quote, CR and LF) -/
+theorem C15_file_reread_nonvacuous : ∃ text, fileText exP exDecls exRowsE = some text ∧
+    readHist exP exDecls text = optAll (exRowsE.map (rtRowE exP exDecls)) := by
+  have h : (fileText exP exDecls exRowsE).isSome = true := by decide +kernel
+  obtain ⟨text, ht⟩ := Option.isSome_iff_exists.1 h
+  exact ⟨text, ht, C15_file_reread exP exDecls exRowsE C15_exFileWF text ht⟩
+
+def exRow1 : Row :=
+  { epoch := 1, esResume := 0, esCd := 2, rlrResume := 0, rlrCd := 1, lr := some (1/2),
+    train := some 2, val := some (3/4) }
+
+def exS : State := { hist := [row0 exP, exRow1], groups := [1/2] }
+
+/-- `C15_restart_text`: all hypotheses hold on a state with one recorded epoch and two user entries -/
+theorem C15_restart_text_nonvacuous :
+    ∃ S' users', restartText exP exDecls exS [[.str "a,\"b\"\rc\n".toList, .int (-7)]] = some (S', users') ∧
+      S' = restart exP exS := by
+  have h : (restartText exP exDecls exS [[.str "a,\"b\"\rc\n".toList, .int (-7)]]).isSome = true := by
+    decide +kernel
+  obtain ⟨⟨S', users'⟩, hS⟩ := Option.isSome_iff_exists.1 h
+  have hz : List.zipWith (fun r u => ({ row := r, user := u } : RowE)) (exS.hist.drop 1)
+      [[.str "a,\"b\"\rc\n".toList, .int (-7)]] = exRowsE := by decide +kernel
+  have ht : (fileText exP exDecls exRowsE).isSome = true := by decide +kernel
+  obtain ⟨text, ht⟩ := Option.isSome_iff_exists.1 ht
+  exact ⟨S', users', hS, (C15_restart_text exP exDecls exS _ (by decide) (by rw [hz]; exact C15_exFileWF)
+    text (by rw [hz]; exact ht) S' users' hS).1⟩
+
+/-- `C15_repr_text` with binary64 rounding on `0.1` -/
+example := C15_repr_text roundF64 C15_roundF64_odd (roundF64 (1 / 10)) "0.1".toList (by decide +kernel)
+
 
 end PdtVerif.Controller
